@@ -10,6 +10,9 @@ use crate::{Ctx, V};
 use serde_json::{json, Value};
 use yata::core::{Action, Candle};
 
+/// documentation-vs-code reporting can be switched off by callers that re-use `check` for another property (C07)
+pub static DOC_CHECKS: std::sync::atomic::AtomicBool = std::sync::atomic::AtomicBool::new(true);
+
 pub struct RunStats {
 	pub steps: u64,
 }
@@ -121,7 +124,8 @@ pub fn check(prop_values: bool, prop_signals: bool, d: &reg::IDesc, cfg: &dyn DC
 		}
 		// documentation-vs-code: where the documented rule differs from what the code does, the code's rule is
 		// what is checked above; a step on which the two rules give different answers is reported under its own signature
-		if prop_signals {
+		let doc = DOC_CHECKS.load(std::sync::atomic::Ordering::Relaxed);
+		if prop_signals && doc {
 			for (what, k, e) in rf.doc_signals() {
 				if let (Some(got), Some(code)) = (res.signals().get(k), es.get(k)) {
 					if !matches!(e, Sig::Exempt) && !matches!(code, Sig::Exempt) && sig_ok(code, *got) && !sig_ok(&e, *got) {
@@ -130,7 +134,7 @@ pub fn check(prop_values: bool, prop_signals: bool, d: &reg::IDesc, cfg: &dyn DC
 				}
 			}
 		}
-		if prop_values {
+		if prop_values && doc {
 			for (what, k, e) in rf.doc_values() {
 				if let (Some(got), Some(code)) = (res.values().get(k), ev.get(k)) {
 					let g = *got as f64;
